@@ -148,6 +148,21 @@ def clash_inputs(ctx, rng):
     out += shared.variants(ctx.quick, rng)
     for f, o in (("1AJJ.pdb", []), ("cterm_hid.pdb", ["--nodebump", "--noopt"]), ("1BX8.pdb", ["--noopt"]), ("5vav_cyclic_peptide.pdb", ["--nodebump"])):
         out.append({"what": f, "text": open(os.path.join(DATA, f)).read(), "args": ["--ff=PARSE"] + o, "post": True})
+    # the options that forbid moves keep forbidding them whatever else is asked for (a titration method, other output options)
+    tit = ["--titration-state-method=propka", f"--with-ph={rng.choice([4, 7, 9])}"]
+    for f, o in (("1AJJ.pdb", ["--nodebump", "--noopt"] + tit), ("1BX8.pdb", ["--noopt"] + tit), ("cterm_hid.pdb", ["--nodebump", "--noopt", "--drop-water", "--keep-chain"]),
+                 ("1AJJ.pdb", ["--assign-only"] + tit), ("1BX8.pdb", ["--clean"] + tit)):
+        out.append({"what": f, "text": open(os.path.join(DATA, f)).read(), "args": ["--ff=" + rng.choice(["AMBER", "PARSE", "CHARMM"])] + o})
+    # coordinates that use the whole eight-column field (<= -100 or >= 1000) in some or all of the atoms
+    for k in range(6 if ctx.quick else 30):
+        seq = [rng.choice(gen.AMINO) for _ in range(rng.randint(3, 7))]
+        heavy = gen.peptide(seq)
+        shift = np.array([rng.choice([-100.0, -160.0, 995.0, 1200.0, 0.0]) + rng.uniform(-3, 3) for _ in range(3)])
+        for a in heavy:
+            a["xyz"] = a["xyz"] + shift
+        o = [[], ["--nodebump", "--noopt"], ["--clean"], ["--assign-only"], ["--noopt"], ["--nodebump"]][k % 6]
+        out.append({"what": f"wide coordinates {'-'.join(seq)} shift {[round(float(v)) for v in shift]}", "text": gen.pdb_text([heavy]),
+                    "args": ["--ff=" + gen.FORCE_FIELDS[k % 6]] + o})
     if not ctx.quick:
         out.append({"what": "1K1I.pdb", "text": open(os.path.join(DATA, "1K1I.pdb")).read(), "args": ["--ff=AMBER"]})
     return out
@@ -199,6 +214,28 @@ def _run_job(job):
                 first[e["a"]] = [v / 1000.0 for v in e["p"]]
                 # position in the chain + atom name: survives residue renaming and the object exchange of a kept flip
                 first_named[(e["res"].split(" ", 1)[1], e["name"])] = first[e["a"]]
+        # the reference is what the input file says, not what the reader made of it: where the (chain, number, name) of an
+        # input line is unique in the text, the coordinates printed in its columns 31-54 stand for the atom's input position
+        intext, seen = {}, set()
+        for ln in job["text"].splitlines():
+            if ln.startswith("ENDMDL"):
+                break
+            if ln.startswith(("ATOM  ", "HETATM")) and len(ln) >= 54:
+                try:
+                    k_ = (f"{ln[21].strip()} {int(ln[22:26])}{ln[26].strip()}", ln[12:16].strip())
+                    xyz = [float(ln[30:38]), float(ln[38:46]), float(ln[46:54])]
+                except ValueError:
+                    continue
+                if k_ in seen:
+                    intext.pop(k_, None)
+                else:
+                    seen.add(k_)
+                    intext[k_] = xyz
+        for e in tr.events:
+            if e.get("e") == "new" and e["stage"] in ("SetupMolecule", "") and e["hv"]:
+                k_ = (e["res"].split(" ", 1)[1], e["name"])
+                if k_ in intext:
+                    first[e["a"]] = first_named[k_] = intext[k_]
         ids = tr.ids
         bonddev = angledev = backbonemove = anymove = 0.0
         worst = ""
@@ -257,8 +294,9 @@ def _run_job(job):
             except Exception as e:
                 res["post"] = [{"error": f"{type(e).__name__}: {e}"[:200]}]
         o = opts_record(job["args"])
-        res["final"] = {"bonddev": int(round(bonddev * 1e6)), "angledev": int(round(angledev * 1e6)), "backbonemove": int(round(backbonemove * 1e6)),
-                        "anymove": int(round(anymove * 1e6)), "forbidden": bool(o["clean"] or o["assignOnly"] or (not o["debump"] and not o["opt"])),
+        cap = lambda v: min(int(round(v * 1e6)), 2 * 10 ** 9)   # TLC integers are 32 bit
+        res["final"] = {"bonddev": cap(bonddev), "angledev": cap(angledev), "backbonemove": cap(backbonemove),
+                        "anymove": cap(anymove), "forbidden": bool(o["clean"] or o["assignOnly"] or (not o["debump"] and not o["opt"])),
                         "worst": worst}
         res["pipe"] = {"opts": o, "fs0": "absent", "ev": events_for_spec(tr.events, clean=o["clean"]), "outcome": "ok", "pqrfinal": True, "expectfile": True}
     shutil.rmtree(wd, ignore_errors=True)
